@@ -53,6 +53,7 @@ type World struct {
 
 	mu      sync.Mutex
 	hidden  map[base.Height]bool // suffrage of this height is "not found yet"
+	epochs  []sufEpoch           // suffrage table: the suffrage of height h is the last epoch with from <= h
 	Delay   func(where string)   // injected suspension point (concurrent phase)
 	sufHits atomic.Int64
 
@@ -103,6 +104,87 @@ func NewWorld(caseID string, n int, th base.Threshold, localMember bool, h0 base
 
 func (w *World) N() int { return len(w.Members) }
 
+// sufEpoch: from this height on the suffrage consists of Members[idx...].
+type sufEpoch struct {
+	suf  base.Suffrage
+	idx  []int
+	from base.Height
+}
+
+// SetSuffrageFrom makes Members[idx...] the suffrage of every height >= from
+// (until a later epoch). Call before any ballot is built.
+func (w *World) SetSuffrageFrom(from base.Height, idx []int) {
+	nodes := make([]base.Node, len(idx))
+	for i, j := range idx {
+		nodes[i] = w.Members[j]
+	}
+	suf, err := isaac.NewSuffrage(nodes)
+	if err != nil {
+		panic(err)
+	}
+	e := sufEpoch{from: from, idx: append([]int{}, idx...), suf: suf}
+	w.mu.Lock()
+	defer w.mu.Unlock()
+	for i := range w.epochs {
+		if w.epochs[i].from == from {
+			w.epochs[i] = e
+			return
+		}
+	}
+	w.epochs = append(w.epochs, e)
+	sort.Slice(w.epochs, func(i, j int) bool { return w.epochs[i].from < w.epochs[j].from })
+}
+
+func (w *World) epochAt(h base.Height) *sufEpoch {
+	var e *sufEpoch
+	for i := range w.epochs {
+		if w.epochs[i].from <= h {
+			e = &w.epochs[i]
+		}
+	}
+	return e
+}
+
+// IdxAt returns the indices (in Members) of the suffrage of height h.
+func (w *World) IdxAt(h base.Height) []int {
+	w.mu.Lock()
+	defer w.mu.Unlock()
+	if e := w.epochAt(h); e != nil {
+		return append([]int{}, e.idx...)
+	}
+	v := make([]int, len(w.Members))
+	for i := range v {
+		v[i] = i
+	}
+	return v
+}
+
+func (w *World) MembersAt(h base.Height) []base.LocalNode {
+	idx := w.IdxAt(h)
+	out := make([]base.LocalNode, len(idx))
+	for i, j := range idx {
+		out[i] = w.Members[j]
+	}
+	return out
+}
+
+// SufAt is the true suffrage of height h.
+func (w *World) SufAt(h base.Height) base.Suffrage {
+	w.mu.Lock()
+	defer w.mu.Unlock()
+	if e := w.epochAt(h); e != nil {
+		return e.suf
+	}
+	return w.Suf
+}
+
+// SuffrageChanges tells how many epochs the table has.
+func (w *World) SuffrageChanges() int {
+	w.mu.Lock()
+	defer w.mu.Unlock()
+	return len(w.epochs)
+}
+
 // GetSuffrage is the callback handed to the ballotbox.
 func (w *World) GetSuffrage(h base.Height) (base.Suffrage, bool, error) {
 	w.sufHits.Add(1)
@@ -115,13 +197,13 @@ func (w *World) GetSuffrage(h base.Height) (base.Suffrage, bool, error) {
 	if hid {
 		return nil, false, nil
 	}
-	return w.Suf, true, nil
+	return w.SufAt(h), true, nil
 }
 
 func (w *World) SuffrageCalls() int64 { return w.sufHits.Load() }
 
 // TrueSuffrage is the ground truth (what GetSuffrage answers once revealed).
-func (w *World) TrueSuffrage(base.Height) base.Suffrage { return w.Suf }
+func (w *World) TrueSuffrage(h base.Height) base.Suffrage { return w.SufAt(h) }
 
 func (w *World) Hide(h base.Height)   { w.mu.Lock(); w.hidden[h] = true; w.mu.Unlock() }
 func (w *World) Reveal(h base.Height) { w.mu.Lock(); delete(w.hidden, h); w.mu.Unlock() }
@@ -395,10 +477,12 @@ func (w *World) Voteproof(s VPSpec) base.Voteproof {
 	return vp
 }
 
-// MembersExcept returns the members without the expel targets of ex.
-func (w *World) MembersExcept(ex *ExpelSpec) []base.LocalNode {
+// MembersExceptAt returns the suffrage members of height h without the expel
+// targets of ex.
+func (w *World) MembersExceptAt(h base.Height, ex *ExpelSpec) []base.LocalNode {
 	var out []base.LocalNode
-	for i, n := range w.Members {
+	for _, i := range w.IdxAt(h) {
+		n := w.Members[i]
 		skip := false
 		if ex != nil {
 			for _, t := range ex.Targets {
